@@ -107,11 +107,16 @@ def run(tier, seed):
         # search: which malformed-input class is now accepted?
         acc_now = [(a, b, c, d) for a, b, c, d in tie.mismatches if (c.startswith('ACCEPT') or c.startswith('OK')) and b == 'REJECT']
         why = tie.diagnose()
+        rej_now = [(a, b, c, d) for a, b, c, d in tie.mismatches if c == 'REJECT' and (b.startswith('ACCEPT') or b.startswith('OK'))]
         if acc_now:
             a, b, c, dlab = acc_now[0]
             R.violation('malformed-input-accepted:' + dlab.split(':')[0], 'the Rust checker accepts input the documented machine / model rejects',
                         {'request': a, 'label': dlab, 'model': b, 'rust': c, 'implementation_behaves_like_model_without_guard': why})
-        else:
+        if rej_now:
+            a, b, c, dlab = rej_now[0]
+            R.violation('valid-input-rejected:' + dlab.split(':')[0], 'the Rust checker rejects input the documented machine / model accepts',
+                        {'request': a, 'label': dlab, 'model': b, 'rust': c})
+        if not acc_now and not rej_now:
             R.violation('correspondence-broken', 'Rust checker and coq/ML model (guards_sound) disagree',
                         {'no_failing_input_found': True, 'theorem_or_correspondence': 'correspondence rust/src/lib.rs <-> coq/ML/Machine.v (guards_sound)',
                          'implementation_behaves_like_model_without_guard': why,
